@@ -19,7 +19,13 @@ import (
 	"verif/checker/internal/load"
 	"verif/checker/internal/report"
 	"verif/checker/internal/rules"
+	"verif/checker/internal/sens"
 )
+
+type multi []string
+
+func (m *multi) String() string     { return strings.Join(*m, ",") }
+func (m *multi) Set(s string) error { *m = append(*m, s); return nil }
 
 func main() {
 	prop := flag.String("prop", "", "property id (C01..C20) or 'all'")
@@ -27,7 +33,13 @@ func main() {
 	repo := flag.String("repo", "/repo", "repository to analyse")
 	verif := flag.String("verif", "/verif", "verification directory (evidence/, replay/, known_findings.json)")
 	list := flag.Bool("list", false, "list properties with rule sets")
+	dry := flag.Bool("dry", false, "print a one-line verdict, write no evidence (used on source variants by the thorough tier)")
+	maxMut := flag.Int("mutants", 320, "thorough tier: upper bound on statement-level variants analysed")
+	var overlays multi
+	flag.Var(&overlays, "overlay", "file=replacement: analyse the tree with <file> replaced by the contents of <replacement> (in memory)")
+	genAnchors := flag.Bool("gen-anchors", false, "development: rewrite internal/load/anchors.json from the rules' sources and the current tree")
 	flag.Parse()
+	report.DryRun = *dry
 	if *list {
 		fmt.Println(strings.Join(rules.Properties(), " "))
 		return
@@ -50,10 +62,34 @@ func main() {
 		fmt.Printf("CHECK-BROKEN property=%s known_findings.json: %v\n", *prop, err)
 		os.Exit(2)
 	}
-	p, err := load.Load(*repo, nil)
+	var overlay map[string][]byte
+	for _, o := range overlays {
+		i := strings.Index(o, "=")
+		if i < 0 {
+			fmt.Printf("CHECK-BROKEN property=%s bad -overlay %q\n", *prop, o)
+			os.Exit(2)
+		}
+		b, err := os.ReadFile(o[i+1:])
+		if err != nil {
+			fmt.Printf("CHECK-BROKEN property=%s %v\n", *prop, err)
+			os.Exit(2)
+		}
+		if overlay == nil {
+			overlay = map[string][]byte{}
+		}
+		overlay[o[:i]] = b
+	}
+	p, err := load.Load(*repo, overlay)
 	if err != nil {
 		fmt.Printf("CHECK-BROKEN property=%s cannot load %s: %v\n", *prop, *repo, err)
 		os.Exit(2)
+	}
+	if *genAnchors {
+		if err := p.GenerateAnchors(filepath.Join(*verif, "checker/internal/rules"), filepath.Join(*verif, "checker/internal/load/anchors.json")); err != nil {
+			fmt.Println(err)
+			os.Exit(2)
+		}
+		return
 	}
 	ids := []string{*prop}
 	if *prop == "all" {
@@ -72,6 +108,23 @@ func main() {
 		}
 		extra := map[string]interface{}{
 			"packages_loaded": len(p.All), "module_packages": len(p.Pkgs), "module_functions": len(p.AllFuncs),
+		}
+		if len(p.AnchorNotes) > 0 {
+			extra["renamed_anchors"] = p.AnchorNotes
+		}
+		if *tier == "thorough" && !*dry {
+			self, _ := os.Executable()
+			sr := &sens.Result{Note: "sensitivity of the rule set on source variants of /repo's current tree (analysed, never executed); it does not influence the verdict"}
+			sens.Seeds(self, id, *repo, *verif, sr)
+			sens.Mutants(self, id, *repo, *verif, p, res, *maxMut, 14, sr)
+			extra["sensitivity"] = sr
+			fmt.Printf("%s thorough: seeded changes noticed %d/%d; statement-level variants of the obligation-carrying functions: %d generated, %d do not compile, %d noticed, %d silent\n",
+				id, sr.SeedsDetected, sr.SeedsTotal, sr.Generated, sr.Invalid, sr.Noticed, sr.Silent)
+			for _, sd := range sr.Seeds {
+				if sd.Status == "missed" {
+					fmt.Printf("%s thorough: NOTE stored seeded change %s is not noticed by the rule set on this tree\n", id, sd.Seed)
+				}
+			}
 		}
 		if e := res.Finish(*verif, *tier, seed, t0, findings, extra); e > exit || (e == 1) {
 			if exit != 1 {
